@@ -450,6 +450,15 @@ def run_job(job):
                 acc.evaluations += 1
                 acc.nontrivial += 1
                 acc.check("wif_str", {"s": s.hex()}, chk_wif_str)
+            # the valid string wrapped the way other wallets' notations wrap it (Electrum "<script type>:<wif>", URI scheme, quotes)
+            plain = B58.check_encode(b"\x80" + key + b"\x01")
+            for b_ in (base, plain, B58.check_encode(b"\xef" + key)):
+                for pre in (b"p2pkh:", b"p2wpkh:", b"p2wpkh-p2sh:", b"p2sh-p2wpkh:", b"p2wsh:", b"p2wsh-p2sh:", b"p2sh:", b"p2pk:", b"p2tr:", b"wif:", b"bitcoin:",
+                            b"WIF:", b":", b" ", b"\n", b'"'):
+                    for s in (pre + b_, b_ + pre):
+                        acc.evaluations += 1
+                        acc.nontrivial += 1
+                        acc.check("wif_str", {"s": s.hex()}, chk_wif_str)
             for v in range(256):
                 for body in (key, key + b"\x01"):
                     s = B58.check_encode(bytes([v]) + body)
